@@ -219,6 +219,11 @@ func driver(id, tier string) int {
 		if seen[v.Sig] {
 			continue
 		}
+		if v.Confirmed {
+			seen[v.Sig] = true
+			confirmed = append(confirmed, v)
+			continue
+		}
 		path, ok := confirmReplay(self, v)
 		if !ok {
 			infra = true
@@ -410,7 +415,7 @@ func diagnoseCrash(self, id, tier string, seed uint64, st *wstate, nw, runs int,
 	if err := writeTrace(path, tr); err != nil {
 		return VRec{}, false
 	}
-	return VRec{Sig: tr.Sig, Msg: tr.Msg + "\n" + tail(text, 1500), Replay: path, Run: culprit, Seed: tr.Seed, Ops: tr.nops(), Ops0: tr.nops()}, true
+	return VRec{Sig: tr.Sig, Msg: tr.Msg + "\n" + tail(text, 1500), Replay: path, Run: culprit, Seed: tr.Seed, Ops: tr.nops(), Ops0: tr.nops(), Confirmed: true}, true
 }
 
 func hangSite(stacks string) string {
